@@ -99,8 +99,11 @@ def _energy(arr, g, shift):
     import numpy as np
 
     e = np.array(arr[:g], dtype=float)
-    if shift:
-        e = e * 1.5  # same group count, different bounds (float32-exact change)
+    if shift is True:
+        e = e * 1.5  # same group count, every bound different
+    elif shift:
+        for k in {int(i) % g for i in shift}:  # same group count, only these bounds different
+            e[k] = e[k] * 1.5
     return e
 
 
